@@ -672,12 +672,12 @@ BUILDSTR_PROPS = {"C11": FUNC, "C06": FUNC + FRAME, "C13": FUNC + FRAME, "C01": 
 P(name="op_build_bytestring", replay="copy_oracle", props=dict(BUILDSTR_PROPS), lib=ITEMLIB, stubs=ITEM_STUBS + ["stubs/copy_ghost.c"],
   contracts=OPS_CONTRACTS + ["contracts/copy.h"], harness="harness/ops.c",
   defines=["H_BUILD_STR", "CALL=cbor_build_bytestring(src,in_len)"], enforce="cbor_build_bytestring",
-  replace=["cbor_new_definite_bytestring"],
+  replace=["cbor_new_definite_bytestring"], unwind=6,   # no loop in the function: memcpy is a built-in; a library loop model (strncpy ...) is cut at 6
   must_exist=[r"cbor_build_bytestring\.postcondition\.4"], min_covers=3, cost=20)
 P(name="op_build_stringn", replay="copy_oracle", props=dict(BUILDSTR_PROPS, C16=[]), lib=ITEMLIB, stubs=ITEM_STUBS + ["stubs/copy_ghost.c"],
   contracts=OPS_CONTRACTS + ["contracts/copy.h"], harness="harness/ops.c",
   defines=["H_BUILD_STR", "CALL=cbor_build_stringn((const char*)src,in_len)"], enforce="cbor_build_stringn",
-  replace=["cbor_new_definite_string", "_cbor_unicode_codepoint_count/_cbor_unicode_codepoint_count__plain"],
+  replace=["cbor_new_definite_string", "_cbor_unicode_codepoint_count/_cbor_unicode_codepoint_count__plain"], unwind=6,
   must_exist=[r"cbor_build_stringn\.postcondition\.4"], min_covers=3, cost=20)
 
 # ------------------------------------------------------------------------------------------------
